@@ -104,7 +104,8 @@ func relation(p, q string) string {
 }
 
 func runC06(t *simrt.Tape, o Opts) Outcome {
-	cfg := schedCfg(t, o, false)
+	concurrentPhase := t.Choose(3, "concurrent-phase") == 1
+	cfg := schedCfg(t, o, concurrentPhase)
 	var w *world.World
 	var st Stats
 	s := simrt.Run(t, cfg, func(s *simrt.Sim) {
@@ -152,8 +153,19 @@ func runC06(t *simrt.Tape, o Opts) Outcome {
 		}
 		classes := map[string]bool{}
 		attempted := false
+		// session churn: a caller that closes a session twice (a defer plus an error path); afterwards
+		// all partitions get fresh sessions that are alive together
+		churned := false
+		if !pol.SessionCache && t.Choose(3, "double-close") == 1 {
+			for _, part := range sortedKeysSess(sess) {
+				if t.Choose(2, "double-close.this") == 1 {
+					w.CloseSessAgain(sess[part])
+					churned = true
+				}
+			}
+		}
 		// optionally drop caches (fresh sessions) so that the foreign IK is loaded from the store
-		if t.Choose(2, "fresh") == 1 {
+		if churned || t.Choose(2, "fresh") == 1 {
 			for _, part := range sortedKeysSess(sess) {
 				if se, err := w.Open(p, part); err == nil {
 					sess[part] = se
@@ -173,6 +185,55 @@ func runC06(t *simrt.Tape, o Opts) Outcome {
 				classes[fmt.Sprintf("suffix=%v/%s/%s/legacy=%v/%s", suffixOn, cacheKind(pol), relation(part, rec.Part), legacyRec, w.Service+"."+w.Product)] = true
 				if op.Panic == "" && op.Err == nil {
 					w.Violate("foreign-decrypt-ok", fmt.Sprintf("foreign-decrypt-ok/suffix=%v/%s/legacy-record=%v/same-service-product=%v", suffixOn, relation(part, rec.Part), legacyRec, w.Service == w.Product), "a session for partition %q decrypted a record of partition %q (key id %s) and returned %d bytes (equal to the original: %v)", part, rec.Part, rec.IKID, len(out), bytes.Equal(out, rec.Payload))
+				}
+			}
+		}
+		// several request handlers ask for sessions of different partitions at the same moment: each gets
+		// a session bound to the partition it asked for
+		if concurrentPhase && len(w.Viols) == 0 {
+			pool := []string{"tenant-1", "tenant-12", "tenant-3", "tenant-7", "Tenant-1", "t", "tenant-10", "tenant-11", "tenant-2", "tenant-21", "tenant-4", "tenant-5", "tenant-6", "tenant-8", "tenant-9", "u1", "u2", "u3", "u4", "u5"}
+			n := 2 + t.Choose(4, "conc.sessions")
+			start := t.Choose(len(pool), "conc.start")
+			type got struct {
+				part string
+				se   *world.Sess
+				rec  *world.Rec
+			}
+			res := make([]got, n)
+			var tasks []*simrt.Task
+			for i := 0; i < n; i++ {
+				i := i
+				part := pool[(start+i*[]int{1, 3, 7}[t.Choose(3, "conc.step")])%len(pool)]
+				res[i].part = part
+				tasks = append(tasks, s.Go("handler", func() {
+					se, err := w.Open(p, part)
+					if err != nil {
+						return
+					}
+					res[i].se = se
+					res[i].rec, _ = w.Encrypt(se, w.Payload(2))
+				}))
+			}
+			for _, tk := range tasks {
+				s.Join(tk)
+			}
+			for _, g := range res {
+				if g.rec == nil || len(w.Viols) > 0 {
+					continue
+				}
+				count(st.Oracle, "concurrent-session-binding")
+				if g.rec.IKID != w.IKID(g.part) {
+					w.Violate("session-bound-elsewhere", "session-bound-to-other-partition/concurrent-get-session", "GetSession(%q), called while other partitions' sessions were being opened, returned a session that writes under key id %s (expected %s)", g.part, g.rec.IKID, w.IKID(g.part))
+				}
+				for _, h := range res {
+					if h.se == nil || h.part == g.part || len(w.Viols) > 0 {
+						continue
+					}
+					attempted = true
+					count(st.Oracle, "foreign-decrypt")
+					if out, op := w.Decrypt(h.se, &g.rec.DRR); op.Panic == "" && op.Err == nil {
+						w.Violate("foreign-decrypt-ok", "foreign-decrypt-ok/concurrent-get-session", "the session handed out for partition %q decrypted a record of partition %q (%d bytes)", h.part, g.part, len(out))
+					}
 				}
 			}
 		}
